@@ -1403,7 +1403,7 @@ var c47CasesV2 atomic.Int64
 
 // TestVerifC47SyncV2: the snap/2 syncer against a fixed pivot (flat-state download from
 // scripted peers, then local trie generation), with cancel + restart. Pivot moves and
-// access-list catch-up are not generated.
+// access-list catch-up are generated by TestVerifC47PivotV2 (c47_pivot_test.go).
 func TestVerifC47SyncV2(t *testing.T) {
 	st := vs.New("C47", t)
 	vs.Check(t, 0.5, func(rt *rapid.T) {
